@@ -91,3 +91,14 @@
   (=> (= (X._reflect.Value_.Kind.r0 v) K.Uint32) (bvule (X._reflect.Value_.Uint.r0 v) #x00000000ffffffff)))
   :pattern ((X._reflect.Value_.Uint.r0 v)))))
 ;@end
+; height of a type in the by-value containment order (termination measure, C16): element and key
+; types are strictly lower, unpacking pointers never raises it.  Well-foundedness is A-META.
+(declare-fun T.height (RT) (_ BitVec 64))
+(declare-fun X.reflect.Type.Elem.r0 (RT) RT)
+(declare-fun X.reflect.Type.Key.r0 (RT) RT)
+;@when T.height
+(assert (forall ((t RT)) (! (and (bvsge (T.height t) #x0000000000000000) (bvsle (T.height t) #x0000000000100000)) :pattern ((T.height t)))))
+(assert (forall ((t RT)) (! (bvslt (T.height (X.reflect.Type.Elem.r0 t)) (T.height t)) :pattern ((X.reflect.Type.Elem.r0 t)))))
+(assert (forall ((t RT)) (! (bvslt (T.height (X.reflect.Type.Key.r0 t)) (T.height t)) :pattern ((X.reflect.Type.Key.r0 t)))))
+(assert (forall ((t RT)) (! (bvsle (T.height (R.unpackPtrType t)) (T.height t)) :pattern ((R.unpackPtrType t)))))
+;@end
